@@ -825,7 +825,7 @@ func gen(c *harness.C) []harness.Case {
 						k := base
 						k.Strategy, k.Victims = s, v
 						bound := 0
-						if c.Thorough() && x.n == 3 && be == "bls" {
+						if x.n == 3 && be == "bls" && (c.Thorough() || x.t == 2 && dev == 2) {
 							bound = 1
 						}
 						cases = append(cases, harness.Case{ID: k.id(), Run: func(c *harness.C) { runCell(c, k, bound) }})
